@@ -20,6 +20,11 @@ theorem asserted_is_documented : ∀ r ∈ opRows, gatingOk r = true := by decid
     combinations the documentation does not foresee (e.g. `persist` without `confirmed`). -/
 theorem gated_elements_asserted : ∀ r ∈ opRows, gatedParamsOk r = true := by decide +kernel
 
+/-- The same for capability-dependent VALUES: `<test-option>test-only` and `<error-option>rollback-on-error`
+    are on the wire only if `:validate:1.1` / `:rollback-on-error` was asserted — whatever spelling of the
+    argument produced them. -/
+theorem gated_values_asserted : ∀ r ∈ opRows, gatedValuesOk r = true := by decide +kernel
+
 /-- With a required capability missing the call is refused (MissingCapabilityError / WithDefaultsError)
     and nothing is put on the wire. -/
 theorem refused_silently : ∀ r ∈ opRows, refusalOk r = true := by decide +kernel
